@@ -123,6 +123,7 @@ func TestC30(t *testing.T) {
 		ndecl := o.File.Decls().Len()
 		if ndecl > 0 {
 			r.Eval(text)
+			r.Sample("in-domain text ("+c.Family+")", map[string]any{"case": c.ID, "text": witnessText(text)})
 		} else {
 			r.Eval("")
 		}
